@@ -50,6 +50,39 @@ pub fn expect_semicolon_or_last(ctx: &mut ParsingContext<'_>) -> TokenId {
     expect_semicolon(ctx).unwrap_or_else(|| ctx.stream.get_last_token_id())
 }
 
+/// Verification hook H3 (only with `--cfg vhdl_ls_rust_hdl_verif`): [expect_semicolon_or_last]
+/// on a bare token stream (`ParsingContext` is crate-private)
+#[cfg(vhdl_ls_rust_hdl_verif)]
+pub fn verif_expect_semicolon_or_last(
+    stream: &crate::syntax::TokenStream<'_>,
+    diagnostics: &mut dyn crate::data::DiagnosticHandler,
+) -> TokenId {
+    let mut ctx = ParsingContext {
+        stream,
+        diagnostics,
+        standard: crate::standard::VHDLStandard::default(),
+    };
+    expect_semicolon_or_last(&mut ctx)
+}
+
+/// Verification hook H3: `Err(err).or_recover_until(kind in kinds)` on a bare token stream
+#[cfg(vhdl_ls_rust_hdl_verif)]
+pub fn verif_or_recover_until(
+    stream: &crate::syntax::TokenStream<'_>,
+    diagnostics: &mut dyn crate::data::DiagnosticHandler,
+    err: crate::data::Diagnostic,
+    kinds: &[crate::syntax::Kind],
+) -> crate::data::DiagnosticResult<()> {
+    use crate::syntax::Recover;
+    let mut ctx = ParsingContext {
+        stream,
+        diagnostics,
+        standard: crate::standard::VHDLStandard::default(),
+    };
+    let result: crate::data::DiagnosticResult<()> = Err(err);
+    result.or_recover_until(&mut ctx, |kind| kinds.contains(&kind))
+}
+
 #[cfg(test)]
 mod tests {
     use crate::analysis::tests::Code;
